@@ -1,7 +1,7 @@
 (* C01 — Two endpoints built on the library interoperate, even across transport loss.
    Statements only.  Nothing else may be added to this file. *)
 From MQ Require Import Base.Prelude Alloc.Alloc Alloc.AllocProofs Framing.Framing Framing.FramingProofs Conn.Types Conn.ConnRecord Conn.Step
-                       Corr.ConnTrace Conn.Scope Conn.Session Conn.IdsQuota Conn.Own Conn.OwnFrame Conn.OwnStep Conn.Run Conn.PairQos Conn.PairQos0 Conn.PairQos5 Conn.PairSeq Conn.PairSeq5 Conn.PairConc Conn.PairBi Conn.PairConc5 Conn.PairBi5 Conn.PairHandshake5 Conn.PairHandshake311 Conn.PairConcIds Conn.PairConcIds5 Conn.PairBiIds Conn.PairBiIds5 Conn.PairQuiescence Conn.PairManual Conn.PairManual5 Conn.PairManualSeq Conn.PairManualSeq5 Conn.PairHandshakeSeq Conn.SessInv Conn.PairLoss Conn.PairLossAcc Conn.PairLossS Conn.PairHandshakeP.
+                       Corr.ConnTrace Conn.Scope Conn.Session Conn.IdsQuota Conn.Own Conn.OwnFrame Conn.OwnStep Conn.Run Conn.PairQos Conn.PairQos0 Conn.PairQos5 Conn.PairSeq Conn.PairSeq5 Conn.PairConc Conn.PairBi Conn.PairConc5 Conn.PairBi5 Conn.PairHandshake5 Conn.PairHandshake311 Conn.PairConcIds Conn.PairConcIds5 Conn.PairBiIds Conn.PairBiIds5 Conn.PairQuiescence Conn.PairManual Conn.PairManual5 Conn.PairManualSeq Conn.PairManualSeq5 Conn.PairHandshakeSeq Conn.SessInv Conn.PairLoss Conn.PairLossAcc Conn.PairLossS Conn.PairHandshakeP Conn.PairLossIds.
 
 (* what the pair property rests on, each proved for ALL states of one endpoint:
    (i) delivery in any fragmentation is the same byte stream (C09) *)
@@ -732,6 +732,35 @@ Theorem C01_fresh_endpoints_interoperate_across_loss_server_publishes : forall g
     (forall p, In p (published s1) -> k_type p = T_PUBLISH -> k_qos p = 1 -> In (undup p) (map undup (delivered s2))).
 Proof. exact fresh_endpoints_interoperate_across_loss_server_publishes. Qed.
 Print Assumptions C01_fresh_endpoints_interoperate_across_loss_server_publishes.
+
+(* AT QUIESCENCE ACROSS LOSSES NO IDENTIFIER IS IN USE (Conn/PairLossIds.v).  [V]: every identifier in use at the sender has an
+   entry in its store — a publication registers exactly the identifier it stores, a final acknowledgement erases the entry and
+   releases the identifier, and a loss with its resumption acquires nothing (by the accounting theorems of C08 every call of
+   the resumption only ever turns identifiers free, and it keeps the store).  With the store empty after the drain: *)
+Theorem C01_pair_lossy_all_identifiers_released : forall gs gr,
+  role_client_ok gs = true -> role_server_ok gr = true -> 2 + g_idw gs <= MQTT_PACKET_SIZE_NO_LIMIT ->
+  forall l s, invL gs gr s -> accC s -> V s -> Forall good_actL l ->
+  exists s1 s2, run_schedL gs gr s l = Some s1 /\ run_schedL gs gr s1 (drainL (measure s1)) = Some s2 /\
+                qsr s2 = [] /\ qrs s2 = [] /\ c_store (cs s2) = [] /\ forall y, is_used (cs s2) y = false.
+Proof. exact lossy_all_identifiers_released. Qed.
+Print Assumptions C01_pair_lossy_all_identifiers_released.
+
+Theorem C01_fresh_endpoints_complete_quiescence_across_loss : forall gs gr cn ca l,
+  1 <= g_idmax gs -> 1 <= g_idmax gr -> role_client_ok gs = true -> role_server_ok gr = true -> 2 + g_idw gs <= MQTT_PACKET_SIZE_NO_LIMIT ->
+  k_type cn = T_CONNECT -> k_ver cn = V311 -> k_flag cn = false ->
+  k_type ca = T_CONNACK -> k_ver ca = V311 -> k_rc ca = 0 ->
+  Forall good_actL l ->
+  let A0 := set_auto_pub (conn_new gs V311) true in
+  let B0 := set_auto_pub (conn_new gr V311) true in
+  exists A1 e1 B1 e2 B2 e3 A2 e4 s1 s2,
+    step gs A0 (OSend cn) = Ok (A1, e1, []) /\ deliver gr B0 cn = Ok (B1, e2) /\
+    step gr B1 (OSend ca) = Ok (B2, e3, []) /\ deliver gs A1 ca = Ok (A2, e4) /\
+    run_schedL gs gr (mkSys A2 B2 [] [] [] []) l = Some s1 /\
+    run_schedL gs gr s1 (drainL (measure s1)) = Some s2 /\
+    (* the quiescent state after any losses *)
+    qsr s2 = [] /\ qrs s2 = [] /\ c_store (cs s2) = [] /\ (forall y, is_used (cs s2) y = false).
+Proof. exact fresh_endpoints_complete_quiescence_across_loss. Qed.
+Print Assumptions C01_fresh_endpoints_complete_quiescence_across_loss.
 
 (* the premises of the pair theorems are met by two endpoints after an ordinary handshake *)
 Example C01_pair_nonvacuous :
